@@ -764,17 +764,26 @@ Section WithMatch.
   Lemma existsb_ext_action (f g : action -> bool) l : (forall x, f x = g x) -> existsb f l = existsb g l.
   Proof. intros H. induction l as [|y l IH]; cbn; [reflexivity|]. rewrite H, IH. reflexivity. Qed.
 
+  Lemma status_nth (hit : list action) k :
+    (k < status_array_len)%nat ->
+    nth k (map (fun k0 => existsb (fun s0 => match status_index s0 with Some j => Nat.eqb j k0 | None => false end) hit)
+               (seq 0 status_array_len)) false
+    = existsb (fun s0 => match status_index s0 with Some j => Nat.eqb j k | None => false end) hit.
+  Proof.
+    intros Hb.
+    set (f := fun k0 => existsb (fun s0 => match status_index s0 with Some j => Nat.eqb j k0 | None => false end) hit).
+    rewrite (nth_indep _ false (f O)) by (rewrite map_length, seq_length; exact Hb).
+    rewrite (map_nth f). rewrite seq_nth by exact Hb. reflexivity.
+  Qed.
+
   Lemma create_report_asserted node ts b acts rsn r s :
     create_report node ts b acts rsn = Some r -> asserted r s = mem s acts && requested b s.
   Proof.
     unfold create_report. destruct (b_rpt b =? EID_NONE); [discriminate|].
     destruct (filter (fun s0 => requested b s0) acts) as [|h t] eqn:F; [discriminate|].
-    intros H. inversion H; subst; clear H. unfold asserted. cbn [r_status].
+    intros H. match goal with H0 : Some ?x = Some r |- _ => replace r with x by congruence end. clear H. unfold asserted. cbv beta iota delta [r_status].
     destruct (status_index s) as [k|] eqn:K.
-    - pose proof (status_index_bound s k K) as Hb.
-      rewrite (nth_indep _ false (existsb (fun _ => false) (h :: t))) by (rewrite map_length, seq_length; exact Hb).
-      rewrite (map_nth (fun k0 => existsb (fun s0 => match status_index s0 with Some j => Nat.eqb j k0 | None => false end) (h :: t))).
-      rewrite seq_nth by exact Hb. cbn [plus].
+    - rewrite status_nth by (eapply status_index_bound; exact K).
       rewrite (existsb_ext_action _ (action_eqb s) (h :: t) (status_index_inj s k K)).
       rewrite <- F. apply mem_filter.
     - destruct s; cbv in K; try discriminate. unfold requested. cbn. rewrite andb_false_r. reflexivity.
@@ -791,7 +800,9 @@ Section WithMatch.
   Proof.
     unfold create_report. destruct (b_rpt b =? EID_NONE) eqn:E; [discriminate|]. apply N.eqb_neq in E.
     destruct (filter (fun s0 => requested b s0) acts); [discriminate|].
-    intros H. inversion H; subst; clear H. cbn. rewrite map_length, seq_length. repeat split; auto.
+    intros H. match goal with H0 : Some ?x = Some r |- _ => replace r with x by congruence end. clear H.
+    cbv beta iota delta [r_dst r_src r_rpt r_flags r_crc r_time r_seq r_with_time r_subj_src r_subj_time r_subj_seq r_status r_reason].
+    rewrite map_length, seq_length. repeat split; auto.
   Qed.
 
   (** A report never requests reports about itself. *)
@@ -819,15 +830,323 @@ Section WithMatch.
     /\ (forall node' ts' b' acts' rsn', b_flags b' = r_flags r -> create_report node' ts' b' acts' rsn' = None).
   Proof.
     intros H. destruct (create_report_fields _ _ _ _ _ _ H) as (_ & _ & _ & Hrpt & Hfl & _).
-    rewrite Hfl. repeat split.
-    - apply report_flags_request_nothing.
-    - apply report_flags_no_time.
-    - apply report_flags_admin.
-    - exact Hrpt.
-    - intros node' ts' b' acts' rsn' Hb.
-      destruct (create_report node' ts' b' acts' rsn') eqn:E; [|reflexivity].
-      exfalso. assert (Hne : create_report node' ts' b' acts' rsn' <> None) by (rewrite E; discriminate).
-      apply create_report_iff in Hne. destruct Hne as [_ [s [_ Hs]]].
-      rewrite requested_flags, Hb, report_flags_request_nothing in Hs. discriminate.
+    rewrite Hfl.
+    split; [intros s; apply report_flags_request_nothing|].
+    split; [apply report_flags_no_time|].
+    split; [apply report_flags_admin|].
+    split; [exact Hrpt|].
+    intros node' ts' b' acts' rsn' Hb.
+    destruct (create_report node' ts' b' acts' rsn') eqn:E; [|reflexivity].
+    exfalso. assert (Hne : create_report node' ts' b' acts' rsn' <> None) by (rewrite E; discriminate).
+    apply create_report_iff in Hne. destruct Hne as [_ [s [_ Hs]]].
+    rewrite requested_flags, Hb, report_flags_request_nothing in Hs. discriminate.
+  Qed.
+
+  (** ** Status reports: the agent *)
+
+  Lemma recv_core_report a b r :
+    report_in r (snd (fst (recv_core a b))) ->
+    accepted a b = true /\
+    exists a' acts rsn c,
+      snd (fst (recv_core a b)) = snd (final a' b acts rsn c)
+      /\ a_node a' = a_node a /\ a_tx a' = a_tx a
+      /\ ( (mem ADlv (route_actions a b) && is_frag b = true
+             /\ acts = route_actions a b /\ rsn = None /\ c = false)
+         \/ (mem ADlv (route_actions a b) && is_frag b = false
+             /\ acts = fst (sec_step b (route_actions a b)) /\ rsn = snd (sec_step b (route_actions a b))
+             /\ c = mem ADlv (fst (sec_step b (route_actions a b)))) ).
+  Proof.
+    destruct (accepted a b) eqn:Hacc.
+    - rewrite (recv_core_accepted a b Hacc).
+      destruct (mem ADlv (route_actions a b) && is_frag b) eqn:C.
+      + destruct (snd (reasm_step (a_reasm a) b)); cbn [fst snd]; intros H.
+        * destruct H as (s & k & [[]|[]]).
+        * destruct H as (s & k & [[]|[]]).
+        * split; [reflexivity|]. eexists _, _, _, _. split; [reflexivity|].
+          split; [reflexivity|]. split; [reflexivity|]. left. auto.
+      + cbn [fst snd]. intros H. split; [reflexivity|]. eexists _, _, _, _. split; [reflexivity|].
+        split; [reflexivity|]. split; [reflexivity|]. right. auto.
+    - rewrite (recv_core_rejected a b Hacc). cbn. intros (s & k & [[]|[]]).
+  Qed.
+
+  Theorem report_sound a b r :
+    report_in r (snd (fst (recv_core a b))) ->
+    b_rpt b <> EID_NONE /\ r_dst r = b_rpt b /\ r_src r = a_node a /\ r_rpt r = EID_NONE
+    /\ r_flags r = report_bundle_flags /\ r_crc r = report_crc_type
+    /\ r_with_time r = has_flag (b_flags b) status_time_flag
+    /\ r_subj_src r = b_src b
+    /\ (b_time b <> 0 -> r_subj_time r = b_time b /\ r_subj_seq r = b_seq b)
+    /\ (exists s, asserted r s = true)
+    /\ (forall s, asserted r s = true -> requested b s = true).
+  Proof.
+    intros Hrep.
+    destruct (recv_core_report a b r Hrep) as (_ & a' & acts & rsn & c & Hev & Hn & _ & _).
+    rewrite Hev in Hrep.
+    destruct (final_report a' b acts rsn c r Hrep) as (ts & cur & acts' & rsn' & Hcr & Hsrc & Hrpt & Hfl & Htime & _).
+    pose proof (create_report_fields _ _ _ _ _ _ Hcr) as (F1 & F2 & F3 & F4 & F5 & F6 & _ & _ & F9 & F10 & F11 & F12 & _).
+    assert (Hreq : forall s, requested cur s = requested b s) by (intros s; unfold requested; rewrite Hfl; reflexivity).
+    rewrite Hrpt in F1, F2. rewrite Hfl in F9. rewrite Hsrc in F10. rewrite Hn in F3.
+    repeat (split; [assumption|]).
+    split.
+    { intros Ht. rewrite (Htime Ht) in F11, F12. auto. }
+    split.
+    - assert (Hne : create_report (a_node a') ts cur acts' rsn' <> None) by (rewrite Hcr; discriminate).
+      apply create_report_iff in Hne. destruct Hne as [_ [s [Hin Hs]]]. exists s.
+      rewrite (create_report_asserted _ _ _ _ _ _ s Hcr), Hs. apply mem_In in Hin. rewrite Hin. reflexivity.
+    - intros s Hs. rewrite (create_report_asserted _ _ _ _ _ _ s Hcr) in Hs.
+      apply andb_true_iff in Hs. rewrite <- Hreq. apply Hs.
+  Qed.
+
+  Lemma final_fwd_not_del a b acts rsn c r :
+    report_in r (snd (final a b acts rsn c)) -> has_tx (snd (final a b acts rsn c)) = true -> asserted r ADel = false.
+  Proof.
+    intros Hrep Htx.
+    destruct (final_report a b acts rsn c r Hrep) as (ts & cur & acts' & rsn' & Hcr & _ & _ & _ & _ & Horigin).
+    rewrite (create_report_asserted _ _ _ _ _ _ ADel Hcr).
+    rewrite final_has_tx in Htx.
+    destruct (mem ADel acts) eqn:Hdel; [cbn in Htx; discriminate|].
+    destruct Horigin as [(_ & Ha & _)|[(_ & _ & Ha & _)|(_ & _ & _ & _ & Hx)]].
+    - subst acts'. rewrite Hdel. reflexivity.
+    - subst acts'. rewrite mem_add, Hdel. reflexivity.
+    - rewrite final_has_tx, Hdel in Hx. congruence.
+  Qed.
+
+  Theorem forwarded_not_deleted a b r :
+    report_in r (snd (fst (recv_core a b))) -> has_tx (snd (fst (recv_core a b))) = true -> asserted r ADel = false.
+  Proof.
+    intros Hrep Htx.
+    destruct (recv_core_report a b r Hrep) as (_ & a' & acts & rsn & c & Hev & _).
+    rewrite Hev in Hrep, Htx. eapply final_fwd_not_del; eassumption.
+  Qed.
+
+  Lemma route_actions_shape a b :
+    route_actions a b = [ARecv] \/ exists x, x <> ARecv /\ route_actions a b = [ARecv; x].
+  Proof.
+    destruct (local_dest a b) eqn:L.
+    - right. exists ADlv. split; [discriminate | apply route_actions_local; exact L].
+    - rewrite (route_actions_routed a b L). destruct (rx_action a b) as [[]|]; cbn; auto;
+        right; eexists; (split; [|reflexivity]); discriminate.
+  Qed.
+
+  (** The asserted statuses are exactly the requested ones that occurred - provided the bundle is not a
+      fragment routed to delivery (whose actions the reassembly step clears) and a bundle routed to
+      'forward' did reach a CL.  Without the last premise the statement is false (see
+      [asserted_occurred_refuted] in Props/C19.v): the RX routing step has already recorded 'forward'. *)
+  Theorem asserted_occurred_partial a b r :
+    report_in r (snd (fst (recv_core a b))) ->
+    mem ADlv (route_actions a b) && is_frag b = false ->
+    (mem AFwd (route_actions a b) = true -> has_tx (snd (fst (recv_core a b))) = true) ->
+    forall s, asserted r s = requested b s && occurred (snd (fst (recv_core a b))) s.
+  Proof.
+    intros Hrep Hnf Hfwd s.
+    destruct (recv_core_report a b r Hrep) as (_ & a' & acts & rsn & c & Hev & _ & _ & [(Hc & _)|(_ & Ha & Hr & Hcc)]).
+    { rewrite Hnf in Hc. discriminate. }
+    rewrite Hev in *.
+    pose proof (final_has_deliver a' b acts rsn c) as Hd.
+    pose proof (final_has_tx a' b acts rsn c) as Ht.
+    destruct (final_report a' b acts rsn c r Hrep) as (ts & cur & acts' & rsn' & Hcr & _ & _ & Hfl & _ & Horigin).
+    rewrite (create_report_asserted _ _ _ _ _ _ s Hcr).
+    assert (Hreq : requested cur s = requested b s) by (unfold requested; rewrite Hfl; reflexivity).
+    rewrite Hreq. clear Hreq Hcr.
+    remember (snd (final a' b acts rsn c)) as evs eqn:Eevs. clear Eevs Hev Hrep.
+    unfold BpAgent.sec_step in Ha, Hcc.
+    destruct (route_actions_shape a b) as [Hs|(x & Hx & Hs)]; rewrite Hs in *.
+    - (* no routing action at all: no report can have been produced *)
+      destruct (b_sec b); cbn in Ha, Hcc; subst acts c; cbn in Horigin;
+        destruct Horigin as [(_ & _ & _ & [H|H])|[(_ & H & _)|(_ & H & _)]]; discriminate.
+    - destruct x; try (exfalso; apply Hx; reflexivity);
+        destruct (b_sec b); cbn in Ha, Hcc, Hfwd; subst acts c; cbn in Horigin, Ht;
+        destruct Horigin as [(_ & Hacts & _ & [H|H])|[(_ & H & Hacts & _)|(_ & H & Hacts & _ & Hx2)]];
+        try discriminate; subst acts';
+        first [specialize (Hfwd eq_refl) | clear Hfwd]; try congruence;
+        destruct s; unfold occurred; rewrite ?Hd, ?Hfwd, ?Ht;
+        cbn [add mem existsb action_eqb orb andb negb app];
+        try (match goal with |- context [requested b ?z] => destruct (requested b z) end); reflexivity.
+  Qed.
+
+  Lemma reports_of_in evs r : In r (reports_of evs) <-> report_in r evs.
+  Proof.
+    unfold reports_of, report_in. rewrite in_flat_map. split.
+    - intros (e & He & Hr). destruct e; cbn in Hr; try contradiction; destruct Hr as [Hr|[]]; subst; eauto.
+    - intros (s & k & [H|H]); eexists; (split; [exact H|]); left; reflexivity.
+  Qed.
+
+  Lemma mem_recv_route a b : mem ARecv (route_actions a b) = true.
+  Proof. destruct (route_actions_shape a b) as [H|(x & _ & H)]; rewrite H; reflexivity. Qed.
+
+  Lemma mem_recv_sec a b : mem ARecv (fst (sec_step b (route_actions a b))) = true.
+  Proof.
+    unfold BpAgent.sec_step. destruct (b_sec b); [|apply mem_recv_route].
+    destruct (mem ADlv (route_actions a b)); [|apply mem_recv_route].
+    cbn [fst]. rewrite mem_add, mem_remove, mem_recv_route. reflexivity.
+  Qed.
+
+  Lemma finish_attempt a sub cur acts rsn :
+    b_rpt cur <> EID_NONE -> mem ARecv acts = true -> requested cur ARecv = true ->
+    exists e, In e (snd (finish a sub cur acts rsn)) /\ is_report_ev e = true.
+  Proof.
+    intros Hr Hm Hq.
+    assert (Hne : create_report (a_node a) (a_now a, a_tsn a) cur acts rsn <> None).
+    { apply create_report_iff. split; [exact Hr|]. exists ARecv. split; [apply mem_In; exact Hm | exact Hq]. }
+    destruct (finish_shape a sub cur acts rsn) as [[_ [_ Hc]]|[r0 [_ [_ [[k [H _]]|[[k H]|[H _]]]]]]].
+    - contradiction.
+    - rewrite H. eexists. split; [left; reflexivity|reflexivity].
+    - rewrite H. eexists. split; [left; reflexivity|reflexivity].
+    - rewrite H. eexists. split; [left; reflexivity|reflexivity].
+  Qed.
+
+  (** If a reception report is requested, a report-to endpoint is named and the bundle reaches a final
+      disposition (deleted, delivered or taken for forwarding), a status report is built and handed to
+      [send_bundle].  (Not so for bundles matching no route and for fragments routed to delivery, see
+      Props/C19.v.) *)
+  Theorem report_attempted_if a b :
+    accepted a b = true ->
+    mem ADlv (route_actions a b) && is_frag b = false ->
+    b_rpt b <> EID_NONE -> requested b ARecv = true ->
+    mem ADel (fst (sec_step b (route_actions a b))) || mem ADlv (fst (sec_step b (route_actions a b)))
+      || mem AFwd (fst (sec_step b (route_actions a b))) = true ->
+    exists e, In e (snd (fst (recv_core a b))) /\ is_report_ev e = true.
+  Proof.
+    intros Hacc Hnf Hr Hq Hdisp.
+    rewrite (recv_core_accepted a b Hacc), Hnf. cbn [fst snd].
+    set (acts := fst (sec_step b (route_actions a b))) in *.
+    set (rsn := snd (sec_step b (route_actions a b))).
+    assert (Hm : mem ARecv acts = true) by apply mem_recv_sec.
+    rewrite final_eq.
+    destruct (mem ADel acts) eqn:Hdel; cbn [snd].
+    - destruct (finish_attempt (seen_add a b) b b acts rsn Hr Hm Hq) as (e & He & Hk).
+      exists e. split; [apply in_or_app; right; exact He | exact Hk].
+    - destruct (mem ADlv acts) eqn:Hdlv.
+      + destruct (finish_attempt (seen_add a b) b b acts rsn Hr Hm Hq) as (e & He & Hk).
+        exists e. split; [apply in_or_app; right; apply in_or_app; left; exact He | exact Hk].
+      + cbn in Hdisp. rewrite Hdisp. cbn [app].
+        rewrite do_fwd_eq. cbn [snd].
+        pose proof (fwd_plan_spec (seen_add a b) b acts rsn) as Hs. cbv zeta in Hs.
+        destruct Hs as (_ & _ & _ & _ & _ & Hrpt & Hfl & _ & _ & _ & _ & _ & Hcase).
+        assert (Hm' : mem ARecv (plan_acts (fwd_plan (seen_add a b) b acts rsn)) = true).
+        { destruct Hcase as [(_ & Ha & _)|(Ha & _)]; rewrite Ha, mem_add, Hm; reflexivity. }
+        assert (Hq' : requested (plan_cur (fwd_plan (seen_add a b) b acts rsn)) ARecv = true)
+          by (unfold requested; rewrite Hfl; exact Hq).
+        rewrite <- Hrpt in Hr.
+        destruct (finish_attempt (plan_agent (fwd_plan (seen_add a b) b acts rsn)) b _ _
+                                 (plan_reason (fwd_plan (seen_add a b) b acts rsn)) Hr Hm' Hq') as (e & He & Hk).
+        exists e. split; [|exact Hk].
+        repeat (apply in_or_app; right). exact He.
   Qed.
 End WithMatch.
+
+(** * Closed witnesses (evaluated inside Coq) *)
+
+Definition ALL_REPORT_FLAGS : N :=
+  FLAG_REQ_DELETION_REPORT + FLAG_REQ_DELIVERY_REPORT + FLAG_REQ_FORWARDING_REPORT + FLAG_REQ_RECEPTION_REPORT
+  + FLAG_REQ_STATUS_TIME.
+
+(** EIDs: 1 this node, 2 the SAND group endpoint, 5 a source, 7 a report-to endpoint, 9 a destination.
+    Route patterns: 0 (rx) matches EID 9 only, 1000 (tx) matches EID 7 only, 1001 (tx) matches EID 9 only. *)
+Definition w_matches : N -> eid -> bool := table_matches [(0, 9); (1000, 7); (1001, 9)].
+Definition w_bundle (time seq : N) (frag : option (N * N)) : bundle :=
+  mkBundle 5 9 7 time seq frag ALL_REPORT_FLAGS 5 true None 0 95 true.
+Definition w_agent (rx : list (N * action)) (tx : list txroute) : agent :=
+  mkAgent 1 [2] rx tx [] [] 800000000000 0.
+Definition w_rpt_route : txroute := mkTx 1000 true None 0.
+Definition w_fwd_route : txroute := mkTx 1001 true None 0.
+Definition w_events (a : agent) (b : bundle) : list event := snd (fst (recv_core w_matches a b)).
+
+(** Forwarding fails (no transmit route for the destination), yet the report asserts 'forwarded'. *)
+Lemma asserted_occurred_refuted :
+  exists a b r,
+    In r (reports_of (w_events a b))
+    /\ mem ADlv (route_actions w_matches a b) && is_frag b = false
+    /\ requested b AFwd = true
+    /\ asserted r AFwd = true /\ occurred (w_events a b) AFwd = false
+    /\ asserted r ADel = true.
+Proof.
+  exists (w_agent [(0, AFwd)] [w_rpt_route]), (w_bundle 1000 1 None). eexists.
+  split; [vm_compute; left; reflexivity|]. vm_compute. repeat split.
+Qed.
+
+(** A forwarded bundle with creation time zero: the report names the rewritten timestamp. *)
+Lemma subject_refuted :
+  exists a b r,
+    In r (reports_of (w_events a b))
+    /\ has_tx (w_events a b) = true
+    /\ (r_subj_time r =? b_time b) = false.
+Proof.
+  exists (w_agent [(0, AFwd)] [w_rpt_route; w_fwd_route]), (w_bundle 0 7 None). eexists.
+  split; [vm_compute; left; reflexivity|]. vm_compute. repeat split.
+Qed.
+
+(** No route: the bundle is dropped without any report although a reception report was requested. *)
+Lemma attempted_if_refuted_no_route :
+  exists a b,
+    accepted a b = true /\ b_rpt b <> EID_NONE /\ requested b ARecv = true /\ requested b ADel = true
+    /\ w_events a b = [].
+Proof.
+  exists (w_agent [] [w_rpt_route]), (w_bundle 1000 1 None). vm_compute. repeat split; discriminate.
+Qed.
+
+(** A fragment routed to delivery: its actions are cleared, no reception report. *)
+Lemma attempted_if_refuted_fragment :
+  exists a b,
+    accepted a b = true /\ b_rpt b <> EID_NONE /\ requested b ARecv = true /\ is_frag b = true
+    /\ w_events a b = [].
+Proof.
+  exists (w_agent [(0, ADlv)] [w_rpt_route]), (w_bundle 1000 1 (Some (0, 10))). vm_compute. repeat split; discriminate.
+Qed.
+
+(** * Statements over [reports_of] (as exported to Props/C19.v) and [ident_of] *)
+
+Lemma ident_inj (b1 b2 : bundle) :
+  ident_eqb (ident_of b1) (ident_of b2) = true
+  <-> b_src b1 = b_src b2 /\ b_time b1 = b_time b2 /\ b_seq b1 = b_seq b2 /\ b_frag b1 = b_frag b2.
+Proof.
+  rewrite ident_eqb_eq. unfold ident_of. split.
+  - intros H. inversion H. auto.
+  - intros (H1 & H2 & H3 & H4). rewrite H1, H2, H3, H4. reflexivity.
+Qed.
+
+Lemma report_sound_r matches a b r :
+  In r (reports_of (snd (fst (recv_core matches a b)))) ->
+  b_rpt b <> EID_NONE /\ r_dst r = b_rpt b /\ r_src r = a_node a /\ r_rpt r = EID_NONE
+  /\ r_flags r = report_bundle_flags /\ r_crc r = report_crc_type
+  /\ r_with_time r = has_flag (b_flags b) status_time_flag
+  /\ r_subj_src r = b_src b
+  /\ (b_time b <> 0 -> r_subj_time r = b_time b /\ r_subj_seq r = b_seq b)
+  /\ (exists s, asserted r s = true)
+  /\ (forall s, asserted r s = true -> requested b s = true).
+Proof. intros H. apply reports_of_in in H. apply (report_sound matches a b r H). Qed.
+
+Lemma forwarded_not_deleted_r matches a b r :
+  In r (reports_of (snd (fst (recv_core matches a b)))) ->
+  has_tx (snd (fst (recv_core matches a b))) = true -> asserted r ADel = false.
+Proof. intros H. apply reports_of_in in H. apply (forwarded_not_deleted matches a b r H). Qed.
+
+Lemma asserted_occurred_partial_r matches a b r :
+  In r (reports_of (snd (fst (recv_core matches a b)))) ->
+  mem ADlv (route_actions matches a b) && is_frag b = false ->
+  (mem AFwd (route_actions matches a b) = true -> has_tx (snd (fst (recv_core matches a b))) = true) ->
+  forall s, asserted r s = requested b s && occurred (snd (fst (recv_core matches a b))) s.
+Proof. intros H. apply reports_of_in in H. apply (asserted_occurred_partial matches a b r H). Qed.
+
+Lemma no_cascade_r matches a b r :
+  In r (reports_of (snd (fst (recv_core matches a b)))) ->
+  (forall s, flags_request (r_flags r) s = false)
+  /\ has_flag (r_flags r) status_time_flag = false
+  /\ has_flag (r_flags r) FLAG_PAYLOAD_ADMIN = true
+  /\ r_rpt r = EID_NONE
+  /\ (forall node' ts' b' acts' rsn', b_flags b' = r_flags r -> create_report node' ts' b' acts' rsn' = None).
+Proof.
+  intros H. apply reports_of_in in H.
+  destruct (recv_core_report matches a b r H) as (_ & a' & acts & rsn & c & Hev & _).
+  rewrite Hev in H.
+  destruct (final_report matches a' b acts rsn c r H) as (ts & cur & acts' & rsn' & Hcr & _).
+  exact (no_cascade _ _ _ _ _ _ Hcr).
+Qed.
+
+(** At most one report per processing. *)
+Lemma finish_reports_le1 matches a sub cur acts rsn :
+  (length (reports_of (snd (finish matches a sub cur acts rsn))) <= 1)%nat.
+Proof.
+  destruct (finish_shape matches a sub cur acts rsn) as [[H _]|[r [_ [_ [[k [H _]]|[[k H]|[H _]]]]]]];
+    rewrite H; cbn; lia.
+Qed.
